@@ -631,7 +631,9 @@ def run(ctx, scratch):
                               case=args, expected=dict(labels=a['labels'], output=a['output']),
                               observed=dict(labels=b['labels'], output=b['output']), kind='repeatability', **fields)
             c = r['ok'].get('refit') or {}
-            if 'err' in c:
+            if 'skipped' in c:
+                ctx.extra['refit_history_skipped'] = ctx.extra.get('refit_history_skipped', 0) + 1
+            elif 'err' in c:
                 ctx.violation('GNNClassifier.fit', 'fit(reinit=True) on an already fitted object raised', case=args,
                               expected='a fit', observed=c, kind='repeatability_refit', **fields)
             elif c and not (a['labels'] == c['labels'] and mat_close(a['output'], c['output'], 1e-12)
